@@ -89,12 +89,13 @@ def isDup : Net → Bool
   | dup _ _ => true
   | _ => false
 
-/-- number of undelivered copies of `e` (nondup) -/
+/-- number of copies of `e` in flight, read off the representation (set membership / multiset count /
+occurrences in the queue of its flow) -/
 def count (n : Net) (e : Env) : Nat :=
   match n with
   | nondup ms => (alookup e ms).getD 0
   | dup set _ => if e ∈ set then 1 else 0
-  | ord flows => (((alookup (e.src, e.dst) flows).getD []).filter (· == e.msg)).length
+  | ord flows => ((alookup (e.src, e.dst) flows).getD []).count e.msg
 
 /-- queue of flow `f` (ordered) -/
 def queue (n : Net) (f : Nat × Nat) : List Nat :=
